@@ -606,7 +606,7 @@ impl Engine for ChunkSim {
                 if tier == Tier::Thorough && rng.chance(0.1) {
                     100_000
                 } else {
-                    *rng.pick(&[1_500usize, 5_000, 9_000])
+                    *rng.pick(&[1_500usize, 5_000, 9_000, 9_000, 20_000, 70_000])
                 }
             }
         };
@@ -614,7 +614,7 @@ impl Engine for ChunkSim {
             0
         } else if max_n >= 1_000 && rng.chance(0.4) {
             // exactly at, one below and one above typical block sizes
-            (*rng.pick(&[1024usize, 2048, 4096, 8192, 1000, 5000]) as i64 + rng.range(-1, 1)) as usize
+            (*rng.pick(&[1024usize, 2048, 4096, 8192, 1000, 5000, 10_000, 16_384, 65_536]).min(&max_n) as i64 + rng.range(-1, 1)) as usize
         } else {
             1 + rng.below(max_n)
         };
